@@ -239,6 +239,68 @@ def r05_6(ctx, fx):
                detail="a path that leaves the peer Dialing with nothing tracking the dial: %s" % (fn.path_sites(wit) if wit else None))
 
 
+PSM = "transport::manager::peer_state::PeerState::"
+
+
+def r05_5(ctx, fx):
+    """PeerState transition tables (the per-variant answers of the small pure methods, read off the discriminant switches):
+    can_dial answers Ok exactly for Disconnected{dial_record: None}; dial_* enter a dialing state only over can_dial() == Ok;
+    on_dial_failure returns true only after it cleared the dial record behind the connection-id equality"""
+    fn = ctx.fn(fx, PSM + "can_dial", "R05.5")
+    if fn is not None:
+        sws = [sw for sw in fn.discr_switches() if sw[2] and sw[2].endswith("peer_state::PeerState")]
+        ctx.anchor("R05.5", "can_dial: match on self", len(sws), 1, cfg=fx.cfg)
+        for sw in sws[:1]:
+            table = {}
+            for v in list(sw[3].keys()) + list(sw[5]):
+                r = fn.reach([n for n, l in fn.succs(sw[0]) if l in fn.variant_edges(sw, v)])
+                got = set()
+                for n, sh in fn.ret_sites():
+                    if n in r:
+                        got |= sh
+                table[v] = got
+            want = {"Connected": {"AlreadyConnected"}, "Dialing": {"DialingInProgress"}, "Opening": {"DialingInProgress"}, "Disconnected": {"Ok", "DialingInProgress"}}
+            ctx.ob("R05.5", "can_dial/answer-per-state", table == want, site=fn.site(sw[0]), cfg=fx.cfg, detail="table read from the CFG: %s" % {k: sorted(v) for k, v in table.items()})
+            osw = [s2 for s2 in fn.discr_switches() if s2[2] and s2[2].endswith("option::Option") and "dial_record" in "".join(map(str, s2[1]))]
+            oks = [n for n, sh in fn.ret_sites() if sh == {"Ok"}]
+            ok = bool(osw) and bool(oks) and all(fn.only_via(n, osw[0][0], fn.variant_edges(osw[0], "None")) for n in oks) and all(fn.only_via(n, sw[0], fn.variant_edges(sw, "Disconnected")) for n in oks)
+            ctx.ob("R05.5", "can_dial/Ok-only-for-Disconnected{dial_record:None}", ok, site=fn.site(sw[0]), cfg=fx.cfg)
+    for meth, var in (("dial_single_address", "Dialing"), ("dial_addresses", "Opening")):
+        fn = ctx.fn(fx, PSM + meth, "R05.5")
+        if fn is None:
+            continue
+        cd = fn.calls(r"PeerState::can_dial$")
+        sws = [sw for sw in fn.discr_switches() if cd and sw[1][0] in fn.copies_of(cd[0].dest[0])]
+        wr = [n for n, st in fn.assigns() if st["lhs"][:2] == [1, "*"] and len(st["lhs"]) == 2]
+        ctx.anchor("R05.5", "%s: can_dial + write of *self" % meth, min(len(cd), len(sws), len(wr)), 1, cfg=fx.cfg)
+        if cd and sws and wr:
+            ok = all(fn.only_via(n, sws[0][0], fn.variant_edges(sws[0], "Ok")) for n in wr)
+            shapes = set()
+            for n in wr:
+                st = fn.stmt(n)
+                shapes |= fn.shape(st["rv"]["o"]) if st["rv"]["r"] == "use" else {st["rv"].get("var", "?")}
+            ctx.ob("R05.5", "%s/enters-%s-only-if-can_dial==Ok" % (meth, var), ok and all(x.startswith(var) for x in shapes), site=fn.site(cd[0].node), cfg=fx.cfg, detail="state written: %s" % sorted(shapes))
+            oks = [n for n, sh in fn.ret_sites() if sh == {"Ok"}]
+            ctx.ob("R05.5", "%s/Ok-implies-state-written" % meth, bool(oks) and all(n not in fn.reach([fn.entry], avoid=wr) for n in oks), site=fn.site(fn.entry), cfg=fx.cfg)
+    fn = ctx.fn(fx, PSM + "on_dial_failure", "R05.5")
+    if fn is not None:
+        wr = [n for n, st in fn.assigns() if st["lhs"][:2] == [1, "*"] and len(st["lhs"]) == 2]
+        trues = [n for n, sh in fn.ret_sites() if sh == {"const:1"}]
+        ctx.anchor("R05.5", "on_dial_failure: writes of *self / `true` exits", min(len(wr), len(trues)), 3, cfg=fx.cfg)
+        ok = bool(trues) and all(n not in fn.reach([fn.entry], avoid=wr) for n in trues)
+        ctx.ob("R05.5", "on_dial_failure/true-implies-dial-record-cleared", ok, site=fn.site(fn.entry), cfg=fx.cfg)
+        eqs = [c for c in fn.calls(r"::eq$") if any(x.endswith(".connection_id") for a in c.args for x in [fn.origin(a)])]
+        tests = [t for c in eqs for t in fn.bool_tests(c.dest[0])]
+        ok = bool(tests) and all(any(fn.only_via(n, sw, [t]) for sw, t, f in tests) for n in wr)
+        ctx.ob("R05.5", "on_dial_failure/clears-only-the-matching-dial", ok, site=fn.site(fn.entry), cfg=fx.cfg,
+               detail="every write of *self lies behind `dial_record.connection_id == connection_id`")
+        shapes = set()
+        for n in wr:
+            st = fn.stmt(n)
+            shapes |= fn.shape(st["rv"]["o"]) if st["rv"]["r"] == "use" else {st["rv"].get("var", "?")}
+        ctx.ob("R05.5", "on_dial_failure/result-state-has-no-dial-record", all(re.match(r"Disconnected\.None$|Disconnected$|Connected", x) for x in shapes) and bool(shapes), site=fn.site(fn.entry), cfg=fx.cfg, detail=str(sorted(shapes)))
+
+
 def run(ctx):
     ctx.assume("R05.3: a peer with a tracked dial has an entry in TransportManager.peers (created by dial/dial_address)")
     for cfg in ctx.configs():
@@ -249,3 +311,4 @@ def run(ctx):
             r05_3(ctx, fx)
             r05_4(ctx, fx)
             r05_6(ctx, fx)
+            r05_5(ctx, fx)
